@@ -6,7 +6,7 @@ import importlib
 import cProfile
 import pstats
 sys.path.insert(0, '/verif')
-sys.path.insert(0, '/repo')
+sys.path.insert(0, __import__('os').environ.get('A5_REPO', '/repo'))
 from symx import core as sx  # noqa
 
 mod = importlib.import_module(sys.argv[1])
